@@ -255,6 +255,10 @@ func genPK(r *rand.Rand, nCols int) []int {
 	case 0:
 		return []int{}
 	case 1:
+		if nCols >= 3 && r.Intn(2) == 0 {
+			// three key columns in any order (rotations are not their own inverse)
+			return r.Perm(nCols)[:3]
+		}
 		if nCols >= 2 {
 			p := r.Perm(nCols)[:2]
 			return p
